@@ -1,5 +1,6 @@
-\* C06 quick (safety): 2 nodes, 2 ids, clock 0..1, no tombstone collection, 2 CAS, 1 fault (partition or restart);
-\* garbage packets, junk push/pull and blocking watchers are in MC_c06_2n.cfg (thorough) and in the replayed behaviours.
+\* C06 quick (safety): 2 nodes, 2 ids, clock 0..1, no tombstone collection, 2 CAS, 1 fault (partition
+\* or restart); garbage packets, junk push/pull, blocking watchers, worker gates are in the thorough
+\* configurations and in the replayed behaviours.
 CONSTANTS
   N = 2
   NI = 2
@@ -15,6 +16,11 @@ CONSTANTS
   AllowGarbage = FALSE
   AllowPartition = TRUE
   AllowJunkPP = FALSE
+  GateNodes = {}
+  InboxCap = 1
+  VersionTest = TRUE
+  MaxDel = 0
+  ObsoleteTimeout = 1
   ConsumeNet = FALSE
   Ideal = TRUE
   Ghost = TRUE
@@ -24,6 +30,6 @@ CONSTANTS
   QRounds = 2
 SPECIFICATION Spec
 VIEW view
-INVARIANTS TypeOK TombstonesInvisible InvalidationSafe NoInventedContent SentIsWritten WatcherNeverStale VersionCountsChanges
-PROPERTIES TombstonesForwarded NoResurrection GCOnlyExpired NoExpiredTombstoneStored OnlyChangesForwarded
+INVARIANTS TypeOK TombstonesInvisible InvalidationSafe NoInventedContent SentIsWritten WatcherNeverStale PrefixWatcherNeverStale VersionCountsChanges
+PROPERTIES TombstonesForwarded NoResurrection GCOnlyExpired NoExpiredTombstoneStored OnlyChangesForwarded DeletedStaysDeleted RemovedOnlyWhenObsolete DeletedNotRevived
 CHECK_DEADLOCK FALSE
